@@ -1987,6 +1987,43 @@ Definition go_client_Conn_internalConnect_if_hasPort (conn_cfg_SSL : bool) (conn
   else
     Ok conn_cfg_Server.
 
+(* Conn.write — client/connection.go *)
+Definition go_client_Conn_write (conn_badness : Z) (conn_cfg_Flood : bool) (conn_lastsent : Z) (line : bytes) (now1 : Z) (now2 : Z) (iow1 : Z * bool) (ioe2 : bool) : res (Z * Z * list Z * list (bytes * bool) * list (bytes * bytes * list bytes) * bool) :=
+  let sleeps : list Z := [] in
+  let io : list (bytes * bool) := [] in
+  let logs : list (bytes * bytes * list bytes) := [] in
+  p1 <- (
+      if negb conn_cfg_Flood then
+        (p2 <- go_client_Conn_rateLimit conn_badness conn_lastsent (len line) now1 now2 ;;
+        let '(conn_badness, conn_lastsent, t1) := p2 in
+        let t : Z := t1 in
+        let sleeps : list Z := (
+            if negb (t =? 0) then
+              sleeps ++ [t]
+            else
+              sleeps) in
+        Ok (conn_badness, conn_lastsent, sleeps))
+      else
+        Ok (conn_badness, conn_lastsent, sleeps)) ;;
+  let '(conn_badness, conn_lastsent, sleeps) := p1 in
+  io <- Ok (io ++ [(line ++ [13; 10]%N, false)]) ;;
+  let '(_, err) := iow1 in
+  if err then
+    Ok (conn_badness, conn_lastsent, sleeps, io, logs, err)
+  else
+    (io <- Ok (io ++ [([], true)]) ;;
+    let err_1 : bool := ioe2 in
+    if err_1 then
+      Ok (conn_badness, conn_lastsent, sleeps, io, logs, err_1)
+    else
+      (let line : bytes := (
+          if has_prefix line [80; 65; 83; 83]%N then
+            [80; 65; 83; 83; 32; 42; 42; 42; 42; 42; 42; 42; 42; 42; 42; 42; 42; 42; 42]%N
+          else
+            line) in
+      let logs : list (bytes * bytes * list bytes) := logs ++ [([68; 101; 98; 117; 103]%N, [45; 62; 32; 37; 115]%N, [line])] in
+      Ok (conn_badness, conn_lastsent, sleeps, io, logs, false))).
+
 End WithTracker.
 Arguments go_state_Tracker_Associate {go_state_Nick_rest go_state_Channel_rest ST} _.
 Arguments go_state_Tracker_ChannelModes {go_state_Nick_rest go_state_Channel_rest ST} _.
